@@ -125,9 +125,20 @@ def match_finding(findings, prop, signature):
     for f in findings:
         if f.get("status") != "known" or f["property"] != prop:
             continue
-        if f["signature"] == signature:
+        if finding_matches(f, signature):
             return f
     return None
+
+
+def finding_matches(f, signature):
+    """A finding names one exact signature, or (signature_re) a family of signatures that all carry the finding's
+    root-cause tag; a violation without that tag never matches."""
+    import re
+    if signature is None:
+        return False
+    if f.get("signature_re"):
+        return re.search(f["signature_re"], signature) is not None
+    return f["signature"] == signature
 
 
 # ---------------------------------------------------------------------------
@@ -255,7 +266,7 @@ def main(argv=None):
         with open(wpath) as fh:
             doc = json.load(fh)
         res = exec_case(check, doc["case"], 120)
-        fails = res["outcome"] == "violation" and res.get("signature") == f["signature"]
+        fails = res["outcome"] == "violation" and finding_matches(f, res.get("signature"))
         if f["status"] == "known":
             if fails:
                 known_lines.append("KNOWN-FINDING: property=%s %s [%s]" % (prop, f["description"], f["id"]))
@@ -283,8 +294,19 @@ def main(argv=None):
                 nsub += len(idx)
         for _ in range(args.workers * 2):
             submit()
+        hard_deadline = t_start + budget + chunk * timeout + 60
         while pending:
             done, pending = cf.wait(pending, timeout=5, return_when=cf.FIRST_COMPLETED)
+            if not done and time.time() > hard_deadline:
+                # a worker is stuck where no Python-level alarm can reach it (C code of an engine): never a pass
+                harness_errors.append("worker hung beyond the hard deadline; pool killed (%d chunks lost)" % len(pending))
+                for proc in list(getattr(ex, "_processes", {}).values()):
+                    try:
+                        proc.kill()
+                    except Exception:
+                        pass
+                pending = set()
+                break
             for fut in done:
                 try:
                     for i, case, res in fut.result():
